@@ -28,6 +28,8 @@ struct MachineBus<'a> {
     io_read: bool,
     ambiguous: bool,
     delayed: u32,
+    /// (T at the start of the port cycle, port, value) of every port write
+    outs: Vec<(u64, u16, u8)>,
 }
 
 impl<'a> MachineBus<'a> {
@@ -68,6 +70,7 @@ impl<'a> RefBus for MachineBus<'a> {
         0xFF
     }
     fn io_w(&mut self, port: u16, v: u8) {
+        self.outs.push((self.t, port, v));
         self.t = self.ula.io_cycle(self.t, port, self.m.contended_addr(port));
         if self.m.m128 && port & 0x8002 == 0 {
             if port & 1 == 1 {
@@ -201,7 +204,7 @@ pub fn run(m128: bool, seed: u64, steps: usize, judge: Judge, prefix: &str, ctx:
     for step in 0..steps {
         let pre = CpuState::from_ref(&r);
         let (info, t_after, undo, io_read, amb, delayed) = {
-            let mut bus = MachineBus { m: &mut m, ula, t: t_ref, undo: vec![], io_read: false, ambiguous: false, delayed: 0 };
+            let mut bus = MachineBus { m: &mut m, ula, t: t_ref, undo: vec![], io_read: false, ambiguous: false, delayed: 0, outs: vec![] };
             let info = r.step(&mut bus);
             (info, bus.t, bus.undo, bus.io_read, bus.ambiguous || info.ambiguous.is_some(), bus.delayed)
         };
@@ -346,4 +349,37 @@ pub fn run(m128: bool, seed: u64, steps: usize, judge: Judge, prefix: &str, ctx:
         }
     }
     Ok(())
+}
+
+/// One port write of a reference run: T (absolute, from the start of the frame in which the run
+/// began) at the start of its port cycle and at the end of the instruction, port and value.
+#[derive(Clone, Copy, Debug)]
+pub struct OutEvent {
+    pub t_io: u64,
+    pub t_end: u64,
+    pub port: u16,
+    pub value: u8,
+}
+
+/// Runs `RefZ80` on the reference machine (`m`: memory incl. the program, paging; RefULA timing) from
+/// `start` at in-frame clock `t0` until `t_limit` T-states have passed, and returns every port write
+/// with its instants: the oracle time line for programs whose writes cannot be observed by
+/// single-stepping (host calls spanning several frames).
+pub fn ref_out_events(m: &mut RefMem, start: &CpuState, t0: u64, t_limit: u64) -> Vec<OutEvent> {
+    let ula = RefUla::new(m.m128);
+    let mut r: RefZ80 = start.to_ref();
+    let mut t = t0;
+    let mut out = vec![];
+    let mut guard = 0u64;
+    while t < t_limit && guard < 50_000_000 {
+        guard += 1;
+        let mut bus = MachineBus { m: &mut *m, ula, t, undo: vec![], io_read: false, ambiguous: false, delayed: 0, outs: vec![] };
+        let _ = r.step(&mut bus);
+        let t_after = bus.t;
+        for (t_io, port, value) in bus.outs.drain(..) {
+            out.push(OutEvent { t_io, t_end: t_after, port, value });
+        }
+        t = t_after;
+    }
+    out
 }
